@@ -636,7 +636,8 @@ def fixed_world(env, variant=0):
     shutil.rmtree(os.path.join(env.tmp, "roots"), ignore_errors=True)
     g1, g2, g3, g4 = (w.group(f"g{i}") for i in (1, 2, 3, 4))
     n1 = w.node("n1", g1, stype="A")
-    n2 = w.node("n2", g2, stype="A" if variant % 2 == 0 else "F")
+    # variant >= 10: the destination has a total-size limit configured (its quota check is one more query in the dispatch)
+    n2 = w.node("n2", g2, stype="A" if variant % 2 == 0 else "F", max_kib=(10 ** 9 if variant >= 10 else None))
     n3 = w.node("n3", g3, stype="A")
     n4 = w.node("n4", g4, stype="A")
     acq = w.acq("acq")
@@ -687,9 +688,12 @@ def fault_sweep(env, kind, variant=0, pathdir="none", mode="ok"):
                 un["n4"].io.check(db.ArchiveFileCopy.get(file=o["f2"], node=o["n4"]))
             elif kind == "delete":
                 un["n4"].io.delete([db.ArchiveFileCopy.get(file=o["f"], node=o["n4"])])
-            elif kind == "search":
+            elif kind in ("search", "search-pass"):
                 ug = upd.UpdateableGroup(queue=q, group=o["g2"], nodes=[un["n2"]], idle=True)
-                w.put_bytes(o["n2"], o["f"], b"unregistered")
+                if kind == "search":
+                    w.put_bytes(o["n2"], o["f"], b"unregistered")      # the search finds a file and stops
+                # "search-pass": nothing there, the search task hands the request on (space and quota checks, reservation,
+                # pull task) inside the worker
                 ug.io.pull(db.ArchiveFileCopyRequest.get(id=o["req"].id))
             elif kind in ("import-event", "import-request"):
                 import pathlib
@@ -762,7 +766,7 @@ def judge_fault(res, ref):
     r = reqs.get(ids["req"])
     dest = [c for c in a["copy"] if c[1] == ids["f"] and c[2] == ids["n2"]]
     dest_healthy = bool(dest) and dest[0][3] == "Y"
-    if res["kind"] == "pull":
+    if res["kind"] in ("pull", "search-pass"):
         if r is not None and r[4] and not dest_healthy:
             probs.append("request completed but no healthy destination copy recorded")
         if dest_healthy and not (r is not None and r[4]):
